@@ -173,7 +173,7 @@ func c13Workloads(tier string) []c13Workload {
 				q("SELECT id, REGEXP_REPLACE(s, '[aeiou]', '_') AS a, REGEXP_MATCH(s, '^b') AS b, REGEXP_FIND(s, '[a-c]+') AS c FROM BIG"),
 				q("SELECT id, DATETIME_FORMAT(ADD_DAY(DATETIME('2012-02-03 09:18:15'), v), '%Y/%m/%d %H') AS d, FORMAT('%05d|%s', v, s) AS f, NOW() AS n FROM BIG WHERE k > 5"),
 				q("SELECT id, JSON_VALUE('a.b', '{\"a\":{\"b\":' || v || '}}') AS j, MD5(s) AS h, DATETIME('2020-01-0' || (k % 9 + 1)) AS d FROM BIG WHERE v < 40"),
-				q("DECLARE FUNCTION f13 (x, y) AS BEGIN IF x IS NULL THEN RETURN y; END IF; RETURN x * 2 + y; END; SELECT id, f13(v, k) AS u FROM BIG WHERE f13(k, 1) > 4")}},
+				q("DECLARE f13 FUNCTION (@x, @y) AS BEGIN IF @x IS NULL THEN RETURN @y; END IF; RETURN @x * 2 + @y; END; SELECT id, f13(v, k) AS u FROM BIG WHERE f13(k, 1) > 4")}},
 		{Name: "cancel", Sites: "loaders and worker loops while the context is cancelled", Special: "cancel",
 			Queries: []string{q("SELECT a.id, b.id FROM BIG a JOIN t2000 b ON a.v = b.v AND a.id < b.id")}},
 		{Name: "signal", Sites: "lib/cli commandAction: the signal goroutine and the read of signalReceived", Special: "signal",
